@@ -162,6 +162,24 @@ def extract():
     eof_guarded = re.search(r"if\s+self\s*\.\s*finished\s*\{\s*return\s+Ok\s*\(\s*0\s*\)", read_body) is not None and \
         len(re.findall(r"Ok\s*\(\s*0\s*\)", read_body)) == 1
     reader_ok = last_def and sorted(sets) == sorted(inside) == ["finished", "last_seen"] and eof_guarded
+    # pull_loop_async: the call's result is propagated (`.await?`), and the loop returns `Ok(())` in exactly two
+    # places: when the consumer is gone (`… && tx.send(..).await.is_err()`) and under `if <last>` where <last> is
+    # bound to the first-query-byte test. Anything else (a timeout arm, try_send, a third exit) is `false`.
+    pl = fn_body(src, "pull_loop_async")
+    oks = [m.start() for m in re.finditer(r"return\s+Ok\s*\(\s*\(\s*\)\s*\)", pl)]
+    lm = re.search(r"let\s+(\w+)\s*=\s*(\w+)\s*\.\s*query\s*\.\s*first\s*\(\s*\)\s*\.\s*copied\s*\(\s*\)\s*==\s*Some\s*\(\s*1\s*\)", pl)
+    gone = re.search(r"if\s+!\s*\w+\s*\.\s*body\s*\.\s*is_empty\s*\(\s*\)\s*&&\s*\w+\s*\.\s*send\s*\([^;{]*\)\s*\.\s*await\s*\.\s*is_err\s*\(\s*\)\s*\{[^}]*return\s+Ok", pl)
+    lastret = re.search(r"if\s+" + (re.escape(lm.group(1)) if lm else "last") + r"\s*\{\s*return\s+Ok", pl) if lm else None
+    call_prop = re.search(r"svs_call\s*\(", pl) is not None and re.search(r"\)\s*\.\s*await\s*\?\s*;", pl) is not None
+    tail_ok = re.search(r"Ok\s*\(\s*\(\s*\)\s*\)\s*$", pl.strip()) is not None
+    async_loop_ok = len(oks) == 2 and bool(lm) and bool(gone) and bool(lastret) and call_prop and not tail_ok and \
+        not re.search(r"timeout|try_send|select!", pl)
+    # TeeWriter::write hands every byte to both sinks: two `write_all(buf)?`
+    tw = re.search(r"impl\s*<[^>]*>\s*Write\s+for\s+TeeWriter", src)
+    tee_all = False
+    if tw:
+        twb = fn_body(src, "write", tw.start())
+        tee_all = len(re.findall(r"\.\s*write_all\s*\(\s*buf\s*\)\s*\?", twb)) == 2 and not re.search(r"\.\s*write\s*\(", twb)
     # temp suffix (string literals are blanked by strip(): read the raw text of temp_sibling)
     raw = read("src/value_stream.rs")
     ts = re.search(r"fn\s+temp_sibling[^{]*\{(.*?)\n\}", raw, re.S)
@@ -178,7 +196,8 @@ def extract():
             "dropRemovesUncommitted": drop_removes, "commitClosesBeforeRename": closes_first,
             "commitRemovesOnRenameError": removes_on_err, "writeFileCommitsOnlyOnOk": wf_commit_ok_only,
             "readerEofOnlyAfterLast": reader_ok, "tempCreateTruncates": create_truncates,
-            "syncsParentDir": syncs_parent}
+            "syncsParentDir": syncs_parent, "asyncLoopOkOnlyOnLastOrGone": bool(async_loop_ok),
+            "teeWritesAll": bool(tee_all)}
 
 
 def render(f):
@@ -229,6 +248,13 @@ def tempCreateTruncates : Bool := {b(f['tempCreateTruncates'])}
 /-- `commit` also opens and syncs the destination's parent directory (recorded; no theorem depends on
 it — without it the rename is atomic but not yet durable when the pull returns). -/
 def syncsParentDir : Bool := {b(f['syncsParentDir'])}
+
+/-- `pull_loop_async` propagates a failed `next` call and returns `Ok(())` only on the `last` flag or when
+the consumer dropped its receiver (no timeout arm, no `try_send`, no third exit). -/
+def asyncLoopOkOnlyOnLastOrGone : Bool := {b(f['asyncLoopOkOnlyOnLastOrGone'])}
+
+/-- `TeeWriter::write` hands the whole buffer to the file and to the digest (`write_all(buf)?` twice). -/
+def teeWritesAll : Bool := {b(f['teeWritesAll'])}
 
 end Repe.Gen.Commit
 """
